@@ -21,7 +21,7 @@ def run(ctx):
               "L in {strided, morton, clamp<strided>} (quick: 3 of the 6 (store,L) combinations per (N,M,coord), rotating; thorough: all 240). "
               "Per instantiation: seeded random extent vectors (every axis >= 2, the single-cell grid included); fields of non-affine random "
               "values with exponents up to 2^100 (2^900 when both types are double), one-hot fields and UNIFORM fields (each component one non-power-of-two "
-              "constant: 60 000 / 400 000 extra lookups against the closed form); the clamp beneath is the whole grid or (every second field) a random SUB-BOX of it; every fourth field is interpolated after a trip through its own dump (the oracle keeps the original lattice values); coordinates: lattice points, cell centres, "
+              "constant: 60 000 / 400 000 extra lookups against the closed form); the clamp beneath is the whole grid or (every second field) a random SUB-BOX of it; every fourth field is interpolated after a trip through its own dump (the oracle keeps the original lattice values), every fourth after being copy-assigned over a field of the same type with other extents; coordinates: lattice points, cell centres, "
               "one ulp either side of lattice points, the top of the last cell, dyadic and uniform random; with a clamp beneath also far outside "
               "the grid (up to 9*10^18, incl. k*2^32 + small).  Oracle: exact sum in binary128 over the storage layer's own lattice values; |got-exact| <= "
               "2*gamma_k(u)*sum|w||v| + tiny, k = 2N+2^N+2, u the coarser unit roundoff; bit-equality with the stored value at lattice points; "
